@@ -136,3 +136,13 @@ package middleware
 //@ ensures[unreachable-store-is-500] called(VerifyConnection) && ret(VerifyConnection) != nil ==> called(WriteHeader#0)
 //@     && arg(WriteHeader#0, 0) == 500 && !called(WriteHeader#1) && !called(ServeHTTP)
 //@ ensures[other-paths-pass-through] !called(VerifyConnection) ==> called(ServeHTTP)
+
+// ------------------------------------------------------------------ C01 / C16: the request scope starts without a session
+//@ func NewScope$1$1
+//@ prop C01 C16
+//@ at call AddRequestScope assert[fresh-scope-no-session-mode-from-option] arg(AddRequestScope, 1).Session == nil
+//@     && arg(AddRequestScope, 1).ReverseProxy == reverseProxy && arg(AddRequestScope, 0) == req
+//@ at call ServeHTTP assert[next-gets-the-scoped-request] arg(ServeHTTP, 1) == ret(AddRequestScope)
+
+//@ func genRequestID
+//@ nomod
